@@ -1,21 +1,18 @@
 #!/bin/bash
 # tools/merge_agent.sh Cxx : copy the agent's own files from /tmp/vw/Cxx/verif into /verif, list its fix commits
+# (patterns are expanded inside the agent's copy, so files that are new there are merged too)
 set -e
 id=$1; low=$(echo $id | tr A-Z a-z)
 src=/tmp/vw/$id/verif
+cd $src
+files=$(ls lean/PytmeModel/Model/$id*.lean lean/PytmeModel/Proofs/$id*.lean lean/PytmeModel/Props/$id*.lean lean/PytmeModel/Extracted/$id*.lean \
+           lean/DriverLib/$id*.lean harness/pv/props/$low*.py harness/pv/${low}_*.py corpus/${id}_* findings.d/$id.json tools/claims.d/$id.json 2>/dev/null || true)
 cd /verif
-for f in lean/PytmeModel/Model/$id*.lean lean/PytmeModel/Proofs/$id*.lean lean/PytmeModel/Props/$id*.lean lean/PytmeModel/Extracted/$id*.lean lean/DriverLib/$id*.lean \
-         harness/pv/props/$low*.py harness/pv/${low}_*.py corpus/${id}_* findings.d/$id.json tools/claims.d/$id.json; do
-  for g in $src/$f; do
-    [ -e "$g" ] || continue
-    rel=${g#$src/}
-    mkdir -p $(dirname $rel)
-    cp -v "$g" "$rel"
-  done
+for rel in $files; do
+  mkdir -p $(dirname $rel)
+  cp -v "$src/$rel" "$rel"
 done
-echo "--- other new/changed files in the agent copy (not merged automatically):"
-diff -rq --exclude=.lake --exclude=.build --exclude=__pycache__ --exclude=evidence --exclude=replays --exclude=.git $src /verif | grep -v "Only in /verif" | head -20 || true
-echo "--- fix commits on agent-$id:"
-git -C /repo log --oneline main..agent-$id
 # the fault-injection helper is shared by the harness but owned by C16
 if [ "$id" = "C16" ] && [ -e $src/harness/pv/faults.py ]; then cp -v $src/harness/pv/faults.py harness/pv/faults.py; fi
+echo "--- fix commits on agent-$id:"
+git -C /repo log --oneline main..agent-$id
